@@ -73,10 +73,12 @@ def main(tier, seed):
     order_theorem(rep, 4, 4 if tier == "quick" else 5)
     if tier == "quick":
         design_mc.run(rep, "C04", seed, n=3, nf=3, ng=2)
-        design_trace.run(rep, "C04", 1500, seed, {"nmax": 16})
+        design_trace.run(rep, "C04", 900, seed, {"nmax": 16})
+        design_trace.run(rep, "C04", 700, seed, {"nmax": 16, "quarters": True, "salt": 44})
     else:
         design_mc.run(rep, "C04", seed, n=4, nf=3, ng=2, xfull=False)
         design_mc.run(rep, "C04", seed, n=3, nf=3, ng=3, xfull=True)
-        design_trace.run(rep, "C04", 40000, seed, {"nmax": 30, "max_terms": 5})
+        design_trace.run(rep, "C04", 25000, seed, {"nmax": 30, "max_terms": 5})
+        design_trace.run(rep, "C04", 15000, seed, {"nmax": 30, "max_terms": 5, "quarters": True, "salt": 44})
     rep.exhaustive = True
     return rep.finish()
